@@ -12,11 +12,14 @@
 //!   store_raw   a bare `TensorStore`: plain / `_cache:` / `emb:`(+`_embedding`) keys,
 //!               `snapshot_bytes` / `restore_from_bytes` only.
 //!   witness     the model's Lean witnesses replayed on the real code, and the directed regression
-//!               cases of repaired defects (id shadowed by a name: /repo fff752bd) — all run first.
+//!               cases of repaired defects (id shadowed by a name: /repo fff752bd on the rollback
+//!               path, 14af22de on the delete path) — all run first.
 //!
-//! Target resolution: `ROLLBACK TO x` = the listed checkpoint with id `x`, else the newest listed
-//! one named `x`; a listed id that brings back a checkpoint NAMED with it is violation class
-//! `tensor_checkpoint.storage/id_shadowed_by_name`.  Raw keys are compared bit for bit by the
+//! Target resolution: `ROLLBACK TO x` and `CheckpointManager::delete(x)` = the listed checkpoint
+//! with id `x`, else the newest listed one named `x`; a listed id that brings back a checkpoint
+//! NAMED with it is violation class `tensor_checkpoint.storage/id_shadowed_by_name`, a delete by a
+//! listed id that unlists a checkpoint NAMED with it instead is
+//! `tensor_checkpoint.manager_delete/id_shadowed_by_name`.  Raw keys are compared bit for bit by the
 //! property oracle (`raw_strict`) and in a canonical form with the model (`raw`), see `show_raw`.
 //!
 //! After every statement the full observable image (every table scan + an index-path query per
@@ -636,7 +639,8 @@ impl Sys {
         v.sort_unstable();
         v
     }
-    /// the checkpoint a target string must resolve to by the documented rule (the listed
+    /// the checkpoint a target string (of `ROLLBACK TO` and of `CheckpointManager::delete`) must
+    /// resolve to by the documented rule (the listed
     /// checkpoint whose ID is the string; otherwise the newest listed checkpoint whose NAME is the
     /// string), computed from the harness's own bookkeeping: Ok(None) = nothing matches,
     /// Err(()) = several newest name matches share a timestamp (hash order decides; not predictable)
@@ -649,29 +653,6 @@ impl Sys {
             .filter_map(|i| {
                 let (nm, ts) = self.ck_meta.get(i)?;
                 if *nm == code {
-                    Some((*i, *ts))
-                } else {
-                    None
-                }
-            })
-            .collect();
-        let Some(best) = cands.iter().map(|c| c.1).max() else { return Ok(None) };
-        let top: Vec<u64> = cands.iter().filter(|c| c.1 == best).map(|c| c.0).collect();
-        if top.len() == 1 {
-            Ok(Some(top[0]))
-        } else {
-            Err(())
-        }
-    }
-    /// what `CheckpointManager::delete` acts on: its own one-pass lookup over the newest-first
-    /// listing (`cp.id == x || cp.name == x`), which /repo fff752bd did not touch — the newest listed
-    /// checkpoint whose id OR name is the string (Err(()) = the newest matches tie)
-    fn expected_delete_target(&self, code: u64, live: &[u64]) -> Result<Option<u64>, ()> {
-        let cands: Vec<(u64, u64)> = live
-            .iter()
-            .filter_map(|i| {
-                let (nm, ts) = self.ck_meta.get(i)?;
-                if *i == code || *nm == code {
                     Some((*i, *ts))
                 } else {
                     None
@@ -1006,8 +987,6 @@ fn diff_images(then: &Image, now: &Image) -> Vec<(String, String)> {
 struct Ctx {
     rep: Report,
     per_class: BTreeMap<String, u32>,
-    /// the delete-by-shadowed-id aside is recorded once per run
-    delete_shadow_noted: bool,
 }
 impl Ctx {
     fn violation(&mut self, class: &str, what: &str, input: serde_json::Value) {
@@ -1112,7 +1091,15 @@ fn gen_op(r: &mut Rng, g: &mut Gen, n_ck: u64, raw_mix: bool, mode: Mode) -> Op 
                 Op::Ckpt(None)
             }
         }
-        100..=101 if n_ck > 0 => Op::CkDel(gen_target(r, n_ck, mode)),
+        100..=101 if n_ck > 0 => {
+            // half of the deletes go by id: with 1 checkpoint in 8 / 9 named with an earlier id that
+            // is where the id pass of the target resolution (14af22de) decides what is unlisted
+            if r.chance(1, 2) {
+                Op::CkDel(r.below(n_ck))
+            } else {
+                Op::CkDel(gen_target(r, n_ck, mode))
+            }
+        }
         102..=103 if n_ck > 0 => Op::CkTop(r.below(4)),
         _ => {
             if n_ck == 0 {
@@ -1215,7 +1202,7 @@ fn run_case(ctx: &mut Ctx, m: &mut Model, stream: &str, mode: Mode, max: usize, 
             }
             Op::CkDel(code) => {
                 let live_before = sys.live_ids();
-                let exp = match sys.expected_delete_target(*code, &live_before) {
+                let exp = match sys.expected_target(*code, &live_before) {
                     Ok(e) => e,
                     Err(()) => {
                         ctx.rep.hit("ambiguous_target_skipped");
@@ -1227,25 +1214,33 @@ fn run_case(ctx: &mut Ctx, m: &mut Model, stream: &str, mode: Mode, max: usize, 
                 let live_after = sys.live_ids();
                 let want: Vec<u64> = live_before.iter().copied().filter(|i| Some(*i) != exp).collect();
                 let ok_expected = exp.is_some();
-                // aside, outside the property (manual deletes are not in its quantifier): a delete by
-                // the id of a LISTED checkpoint that unlists a newer checkpoint NAMED with that id
-                // string — `CheckpointManager::delete` has its own lookup, not repaired by fff752bd
+                // a delete by the id of a LISTED checkpoint must unlist that very checkpoint: when
+                // instead exactly one other checkpoint, NAMED with that id string, is gone and the
+                // target is still listed, the id was shadowed by the name on the delete path
+                // (repaired by /repo 14af22de) — its own narrow class
                 let shadowers = sys.named_with_id_of(*code, &live_before);
                 let removed: Vec<u64> = live_before.iter().copied().filter(|i| !live_after.contains(i)).collect();
+                let mut shadowed = false;
                 if live_before.contains(code) && !shadowers.is_empty() {
+                    // the id pass of find_by_id_or_name is the only thing that makes this delete reach `code`
                     ctx.rep.hit("ckdel:listed_id_also_a_name");
-                    if ans == "ok" && removed.len() == 1 && shadowers.contains(&removed[0]) && !ctx.delete_shadow_noted {
-                        ctx.delete_shadow_noted = true;
-                        ctx.rep.observe(json!({"class": "tensor_checkpoint.manager_delete/id_shadowed_by_name",
-                            "what": format!("checkpoint number {code} is listed, but CheckpointManager::delete(<its id>) unlisted checkpoint number {}, whose NAME is that id string and which is newer: delete does not call find_by_id_or_name but repeats the one-pass lookup that /repo fff752bd replaced there (ROLLBACK TO the same string reaches checkpoint number {code})", removed[0]),
-                            "stream": stream, "ops": trace.clone(), "op": op.line(), "ts": tss}));
+                    if ans == "ok" && removed.len() == 1 && shadowers.contains(&removed[0]) && live_after.contains(code) {
+                        shadowed = true;
+                        violated = true;
+                        ctx.violation(
+                            DELETE_SHADOW_CLASS,
+                            &format!("checkpoint number {code} is listed, but CheckpointManager::delete(<its id>) unlisted checkpoint number {}, whose NAME is that id string, and left checkpoint number {code} listed (delete must resolve its target like rollback: the id match wins over a name match)", removed[0]),
+                            json!({"stream": stream, "ops": trace.clone(), "op": op.line(), "target": code, "expected": code, "removed": removed[0],
+                                   "listed_before": live_before, "listed_after": live_after, "ts": tss, "max": max}),
+                        );
                     }
                 }
-                if (ans == "ok") != ok_expected || live_after != want || sys.image() != img_before {
+                let data_changed = sys.image() != img_before;
+                if (!shadowed && ((ans == "ok") != ok_expected || live_after != want)) || data_changed {
                     violated = true;
                     ctx.violation(
                         "tensor_checkpoint.delete/wrong_checkpoint_deleted",
-                        &format!("delete of target code {code} answered {ans}; listed before {live_before:?}, after {live_after:?}, expected to remove {exp:?} only and leave the data untouched"),
+                        &format!("delete of target code {code} answered {ans}; listed before {live_before:?}, after {live_after:?}, expected to remove {exp:?} only (the listed checkpoint with that id, else the newest listed one with that name) and leave the data untouched (data changed: {data_changed})"),
                         json!({"stream": stream, "ops": trace.clone(), "target": code}),
                     );
                 }
@@ -1576,6 +1571,22 @@ fn stream_router(ctx: &mut Ctx, m: &mut Model, rng: &Rng, cases: usize, mode: Mo
             }
             ops.push(op);
         }
+        // the ingredients of the id-shadowed-by-a-name regressions (/repo fff752bd rollback path,
+        // 14af22de delete path) need two cooperating statements that the per-statement generator
+        // rarely brings together: in 1 case of 4 a checkpoint NAMED with the id of an earlier one is
+        // put in after some checkpoint, and a delete / rollback by that very id somewhere after it
+        if mode != Mode::Auto && r.chance(1, 4) {
+            if let Some(first) = ops.iter().position(|o| matches!(o, Op::Ckpt(_))) {
+                let p = first + 1 + r.below((ops.len() - first) as u64) as usize;
+                let before = ops[..p].iter().filter(|o| matches!(o, Op::Ckpt(_))).count() as u64;
+                let j = r.below(before);
+                ops.insert(p, Op::Ckpt(Some(j)));
+                n_ck += 1;
+                let q = p + 1 + r.below((ops.len() - p) as u64) as usize;
+                ops.insert(q, if r.chance(1, 2) { Op::CkDel(j) } else { Op::Rollback(j) });
+                ctx.rep.hit("gen:shadow_pair_injected");
+            }
+        }
         // harness clock: non-decreasing, ties with probability 1/3 (manager mode only matters)
         let mut tss = vec![];
         let mut t = 100u64;
@@ -1589,7 +1600,7 @@ fn stream_router(ctx: &mut Ctx, m: &mut Model, rng: &Rng, cases: usize, mode: Mo
         if !agreed {
             ctx.rep.note(&format!("{name}: the disagreeing case ran with blob chunk size {chunk} (0 = default)"));
             // shrink the op list for the replay file
-            let mut scratch = Ctx { rep: Report::new(""), per_class: BTreeMap::new(), delete_shadow_noted: false };
+            let mut scratch = Ctx { rep: Report::new(""), per_class: BTreeMap::new() };
             let small = shrink_list(&ops, &mut |cand: &[Op]| {
                 let (a, _) = run_case(&mut scratch, m, name, mode, max, cand, &tss, false);
                 !a
@@ -1639,6 +1650,14 @@ fn stream_witness(ctx: &mut Ctx, m: &mut Model) {
         ("id_shadowed_by_name", vec![kp(1), CK, kp(2), Op::Ckpt(Some(0)), kp(3), Op::Rollback(0)], vec![5, 6]),
         ("id_shadowed_by_two_names", vec![kp(1), CK, kp(2), Op::Ckpt(Some(0)), Op::GNode(1), Op::Ckpt(Some(0)), kp(3), Op::CkTop(3), Op::Rollback(0)], vec![5, 6, 7]),
         ("id_shadowed_same_second", vec![kp(1), CK, kp(2), Op::Ckpt(Some(0)), kp(3), Op::Rollback(0)], vec![5, 5]),
+        // regression cases of /repo 14af22de (delete resolves its target like rollback): the shortest
+        // history in which the id pass is the only thing that makes delete(<id of c0>) unlist c0 and
+        // not the newer checkpoint named with that id; then two shadowing checkpoints, equal
+        // timestamps, a shadowed middle checkpoint, the delete repeated (then the NAME is reached)
+        ("delete_id_shadowed_by_name", vec![kp(1), CK, kp(2), Op::Ckpt(Some(0)), kp(3), Op::CkDel(0), Op::CkTop(3)], vec![5, 6]),
+        ("delete_id_shadowed_by_two_names", vec![kp(1), CK, kp(2), Op::Ckpt(Some(0)), Op::GNode(1), Op::Ckpt(Some(0)), kp(3), Op::CkDel(0), Op::CkTop(3), Op::CkDel(0), Op::CkDel(0), Op::CkDel(0)], vec![5, 6, 7]),
+        ("delete_id_shadowed_same_second", vec![kp(1), CK, kp(2), Op::Ckpt(Some(0)), kp(3), Op::CkDel(0), Op::Rollback(0)], vec![5, 5]),
+        ("delete_id_shadowed_middle", vec![kp(1), CK, kp(2), CK, kp(3), Op::Ckpt(Some(1)), Op::VPut(0, vec![1, 2, 3]), Op::Ckpt(Some(0)), kp(4), Op::CkDel(1), Op::CkTop(4), Op::Rollback(1), ], vec![5, 6, 7, 8]),
         ("id_shadowed_delete_by_id", vec![kp(1), CK, kp(2), Op::Ckpt(Some(0)), kp(3), Op::CkDel(0), Op::CkTop(3), Op::Rollback(0), Op::Rollback(1)], vec![5, 6]),
         ("id_shadowed_delete_shadower_by_id", vec![kp(1), CK, kp(2), Op::Ckpt(Some(0)), kp(3), Op::CkDel(1), Op::Rollback(0)], vec![5, 6]),
         ("id_shadowed_middle", vec![kp(1), CK, kp(2), CK, kp(3), Op::Ckpt(Some(1)), Op::VPut(0, vec![1, 2, 3]), Op::Ckpt(Some(0)), kp(4), Op::Rollback(1)], vec![5, 6, 7, 8]),
@@ -1690,6 +1709,9 @@ fn stream_witness(ctx: &mut Ctx, m: &mut Model) {
 
 /// repaired by /repo fff752bd; reported again whenever a listed id reaches a checkpoint NAMED with it
 const SHADOW_CLASS: &str = "tensor_checkpoint.storage/id_shadowed_by_name";
+/// repaired by /repo 14af22de; reported again whenever CheckpointManager::delete(<listed id>) unlists a
+/// checkpoint NAMED with that id instead of the checkpoint with that id
+const DELETE_SHADOW_CLASS: &str = "tensor_checkpoint.manager_delete/id_shadowed_by_name";
 const TIE_CLASS: &str = "tensor_checkpoint.retention/newer_dropped_on_timestamp_tie";
 
 /// Directed, seed-independent reproduction of the retention tie finding (runs before the seeded
@@ -2235,11 +2257,11 @@ fn main() {
     let rep = Report::new(
         "a case is one statement sequence run on a fresh router and the model with the full image compared after every statement; non-trivial = at least one statement succeeded and changed state; distinct = distinct statement traces",
     );
-    let mut ctx = Ctx { rep, per_class: BTreeMap::new(), delete_shadow_noted: false };
+    let mut ctx = Ctx { rep, per_class: BTreeMap::new() };
     ctx.rep.expected_branches = [
         "op:rcreate", "op:rdrop", "op:rins", "op:rdel", "op:rhidx", "op:rbidx", "op:gnode", "op:gedge", "op:gdeln",
         "op:gdele", "op:vput", "op:vdel", "op:vbuild", "op:kput", "op:kdel", "op:ckpt", "op:rollback",
-        "op:ckpt_named", "op:rollback_by_id", "op:ckdel", "op:cktop", "rollback:listed_id_also_a_name", "rollback:unlisted_id_by_name", "ckdel:listed_id_also_a_name",
+        "op:ckpt_named", "op:rollback_by_id", "op:ckdel", "op:cktop", "rollback:listed_id_also_a_name", "rollback:unlisted_id_by_name", "ckdel:listed_id_also_a_name", "gen:shadow_pair_injected",
         "rollback:by_shared_or_foreign_name", "blob_chunk:default", "blob_chunk:small_shared", "text_api:checked_after_rollback", "text_api:checked_at_checkpoint", "directed:dense_embedding", "directed:undecodable_image", "directed:dense_vector_engine_exact", "op:text_delete", "op:text_node_delete", "op:text_embed_delete", "auto_checkpoint:created", "slab:set", "slab:del", "slab:clear", "slab:compact", "slab:reload",
         "res:ok", "res:id", "res:count", "res:err notfound", "res:err exists", "res:err storage",
         "retention:tie_at_boundary", "retention:incremental", "retention:bulk", "raw:restore",
